@@ -522,6 +522,14 @@ def Heap.evalScale (h : Heap α) (i : Nat) : Option α := (h[i]?).map (·.scale)
 def Heap.gradScale (h : Heap α) (i : Nat) : Option α :=
   (h[i]?).bind (fun o => (h[o.gradOf]?).map (·.scale))
 
+/-- `H = obj.hessian` (a property: every access builds a new `LinearOperator`) kept by the caller and applied
+    LATER, in heap state `h`: its closures are `lambda x: 2 * self.scale * A.adj(W(A(x)))` — `A`, `W` were read
+    when the property was accessed (they are never reassigned), `self.scale` is read when the operator is
+    CALLED.  So the handle only remembers the object it came from. -/
+def Heap.hessHandleApply [Add α] [Sub α] [Neg α] [Zero α] [One α] {n m : Nat} (h : Heap α) (obj : Nat)
+    (A : Mat α m n) (w : Vec α m) (x : CVec α n) : Option (CVec α n) :=
+  (h.evalScale obj).map (fun s => hessianApply s A w x)
+
 /-- the same machine *without* the re-binding line (what `copy` alone would give) — used for the
     negative result `stale_without_rebind` -/
 def Heap.stepNoRebind (h : Heap α) : LossOp α → Heap α
